@@ -22,7 +22,7 @@ import traceback
 from typing import Any, Dict, List, Optional, Tuple
 
 ROOT = os.path.dirname(os.path.dirname(os.path.abspath(__file__)))
-EVID = os.path.join(ROOT, "evidence")
+EVID = os.environ.get("VF_EVIDENCE_DIR") or os.path.join(ROOT, "evidence")   # (override: runs against a mutated scratch tree must not touch the committed evidence)
 REPLAYS = os.path.join(ROOT, "replays")
 
 
@@ -277,6 +277,10 @@ def run_property(prop: str, harness_name: str, tier: str, seed: int, jobs: int, 
     done: Dict[int, Dict[str, Any]] = {}
     running: Dict[int, Tuple[int, float]] = {}  # pid -> (idx, start)
     budget = getattr(mod, "WALL_BUDGET", {}).get(tier, 3600.0)
+    if tier == "thorough":
+        budget = min(budget, 2100.0)     # every thorough command ends within ~35 minutes; what did not run is INCONCLUSIVE
+    if os.environ.get("VF_WALL_BUDGET"):
+        budget = float(os.environ["VF_WALL_BUDGET"])
     while len(done) < len(items):
         try:
             msg = results.get(timeout=1.0)
